@@ -64,3 +64,34 @@ prop("C08",
      level_text="Theorems for every limit record (exactly one entry per configured resource with cur=max, CPU hard=max(hard,soft), resources pairwise distinct so in-order application gives every configured pair and leaves the rest inherited), every usage/bound tuple (strict comparisons, memory overrides time, measured values returned), every chunking of the output (at most cap bytes retained, a prefix, everything consumed); ties to the regenerated code evaluated in the kernel; differential + real runs in all three runners",
      level_note="Trusted: Lean kernel; hand models tied by sampled kernel evaluation of regenerated code and random differential; kernel rlimit/pipe semantics assumed and sampled",
      technique="Lean 4 proofs over all records/usages/streams + decide +kernel ties to regenerated Go-lite + differential + real runs")
+
+FORK_TB = ["extract translates pkg/forkexec forkAndExecInChild/prepareFds/childExitError* to Go-lite on every run; the Go-lite interpreter + the abstract kernel of Model/ForkChildRun.lean (descriptor table, sync socket, getpid, exec, exit; every raw syscall recorded; fault oracle by position) are trusted as the semantics",
+           "constants (syscall numbers, flags, Loc*, securebits) come from the compiled packages through the verif hook pkg/forkexec/export_verif.go and the generated harness/consts_gen.go"]
+
+prop("C04",
+     trusted_base=FORK_TB + ["hand skeleton Model/ForkSkeleton.lean tied to the regenerated function by C04_tie_sample (kernel) and by the per-run comparison over sampled/enumerated option vectors in the driver"],
+     assumptions=["kernel effect of each step (capset(0) empties the sets, SECBIT_NOROOT stops exec from re-granting, seccomp needs nnp or CAP_SYS_ADMIN, …) is validated by the probe's self-report in real launches, not proved",
+                  "capset is called with a single 12-byte CapUserData under a V3 header: the high word read by the kernel is whatever follows in memory (observed clean; noted as an observation)",
+                  "option combinations the kernel refuses here (ptrace without a tracer, clone-into-cgroup without cgroup2 delegation) are covered by the model comparison only"],
+     not_covered="LSMs, the capability bounding set",
+     level_text="Theorems for every option set (symbolic in all 29 option atoms) on the launch skeleton: filter loaded iff given and at most once, no_new_privs whenever requested or a filter is given, capability drop + locked NOROOT whenever credential or drop-caps is requested in every sync/ptrace/late-unshare combination and never otherwise, ids/session/cwd/host/domain/pivot iff requested, exec last, vfork sharing only without parent interaction; skeleton tied to the regenerated forkAndExecInChild by kernel-evaluated sample + exhaustive/sampled driver comparison each run; real launches with probe self-report",
+     level_note="Trusted: Lean kernel; translator + Go-lite + abstract kernel; the skeleton<->regenerated-code tie is a comparison over option vectors (sampled in quick, 2^20 in thorough), not a proof; kernel security semantics assumed and sampled",
+     technique="Lean 4 proofs over all option sets on a hand skeleton + tie to regenerated Go-lite code (decide +kernel sample, exhaustive driver sweep) + real launches")
+
+prop("C06",
+     trusted_base=FORK_TB,
+     assumptions=["launcher's side of the contract: every descriptor of the launching process outside the list is close-on-exec (Go opens everything so; the container init marks its stdio); pipe ends and exec descriptor pairwise distinct",
+                  "kernel dup3/fcntl/close semantics as modelled"],
+     not_covered="an unbounded induction over the descriptor list is not proved: C06_small_scope is a kernel-evaluated bounded statement on the regenerated code; the same predicate is evaluated exhaustively for all lists of length <= 3 (quick) / <= 4 (thorough) with all placements by the compiled driver on every run; descriptors created concurrently by other goroutines are C17",
+     level_text="The regenerated forkAndExecInChild is executed on an abstract descriptor table: kernel-evaluated theorem over a family of 20 adversarial layouts (order, repeats, gaps, close marker, pipe and exec descriptor inside/above the list, vfork), exhaustive bounded enumeration in the driver on every run against the property oracle, and real launches with engineered layouts where the probe reports fstat identity of every descriptor and the Runner is deep-compared and restarted",
+     level_note="PARTIAL: bounded (small-scope) proof, not an unbounded theorem. Trusted: Lean kernel; translator + Go-lite + abstract descriptor table",
+     technique="decide +kernel on regenerated Go-lite code (bounded) + exhaustive bounded enumeration + real launches")
+
+prop("C07",
+     trusted_base=FORK_TB + ["hand model Model/SyncParent.lean of syncWithChild/handlePipeError/handleChildFailed (the Go function uses goto), tied by the real fault-injection differential"],
+     assumptions=["sethostname/setdomainname/unshare(CLONE_NEWCGROUP) failures are deliberately ignored by the launcher (documented 'not critical'); listed explicitly in Model/ForkChecked.ignorable",
+                  "ptrace+seccomp configuration: Start returns at the stop, later failures surface as 'child process exit before execve' (step not named): recorded as an observation of the early-return design, see DESIGN.md"],
+     not_covered="faults the kernel cannot be made to produce on demand are covered by the model-level injection only",
+     level_text="Whole-AST theorem that every raw syscall of the regenerated child is followed by its error check (or is a listed ignorable step) and that the exit helpers write the error then exit; kernel-evaluated fault injection at every step of a rich option set; per-run fault injection at every step of thousands of option sets in the driver; theorems for all inputs on the parent model (kill+wait4 before every failing return, both socket ends closed, ack only after a successful callback, returned error is the child's report); real failures induced at each reachable step",
+     level_note="Trusted: Lean kernel; translator + Go-lite + abstract kernel; parent side is a hand model tied by real fault injection",
+     technique="Lean 4: syntactic theorem on regenerated AST + decide +kernel fault injection + proofs on parent model; fault-injection differential")
